@@ -15,6 +15,7 @@ import (
 	"sort"
 	"strconv"
 	"strings"
+	"sync"
 	"sync/atomic"
 	"time"
 
@@ -80,8 +81,66 @@ func installCounters() {
 			poolAccepted.Add(1)
 		case "wpool.exec.end":
 			poolFinished.Add(1)
+		default:
+			parPause(p)
 		}
 	}, mut)
+}
+
+// ---- "par a || b || c": the operations run concurrently; every one that reaches the pause point
+// commit.afterCheck waits there until all the others have reached it too, have finished, or a quiet
+// period has passed (a thread blocked on a lock never arrives) ----
+var (
+	parMu      sync.Mutex
+	parActive  bool
+	parWaiting int
+	parDone    int
+	parTotal   int
+	parCond    = sync.NewCond(&parMu)
+)
+
+func parPause(point string) {
+	if point != "commit.afterCheck" {
+		return
+	}
+	parMu.Lock()
+	defer parMu.Unlock()
+	if !parActive {
+		return
+	}
+	parWaiting++
+	parCond.Broadcast()
+	deadline := time.Now().Add(300 * time.Millisecond)
+	for parActive && parWaiting+parDone < parTotal && time.Now().Before(deadline) {
+		// wake up periodically: sync.Cond has no timed wait
+		parMu.Unlock()
+		time.Sleep(2 * time.Millisecond)
+		parMu.Lock()
+	}
+}
+
+func (e *histEnv) runPar(groups [][]string) string {
+	parMu.Lock()
+	parActive, parWaiting, parDone, parTotal = true, 0, 0, len(groups)
+	parMu.Unlock()
+	res := make([]string, len(groups))
+	var wg sync.WaitGroup
+	for i, g := range groups {
+		wg.Add(1)
+		go func(i int, g []string) {
+			defer wg.Done()
+			res[i] = e.step(g)
+			parMu.Lock()
+			parDone++
+			parCond.Broadcast()
+			parMu.Unlock()
+		}(i, g)
+	}
+	wg.Wait()
+	parMu.Lock()
+	parActive = false
+	parMu.Unlock()
+	return strings.Join(res, " || ")
 }
 
 func init() {
@@ -607,6 +666,21 @@ func histMain(path, mode string) int {
 				continue
 			}
 			e.keys, e.keyIds = keys, keyIds
+			if t[0] == "par" {
+				var groups [][]string
+				cur := []string{}
+				for _, tok := range t[1:] {
+					if tok == "||" {
+						groups = append(groups, cur)
+						cur = []string{}
+					} else {
+						cur = append(cur, tok)
+					}
+				}
+				groups = append(groups, cur)
+				fmt.Fprintln(out, e.runPar(groups))
+				continue
+			}
 			if childMode {
 				res := e.step(t)
 				drainPool()
